@@ -8,7 +8,8 @@
 //	reset [next=<n>]                      fresh requester; optionally presets the id allocator (wrap tests)
 //	req s=<act>                           one top-level issue; <act> is a script item (below)
 //	noroute cb=<0|1>                      node-level app.Request whose route finds no target
-//	deliver k=<tag> kind=ok|nil|err|bad w=<n>   the peer answers the message it received for instance <tag>
+//	deliver k=<tag> kind=ok|nil|err|bad w=<n> [code=<int32>]   the peer answers the message it received for instance <tag>
+//	                                      (kind=err: ErrCode = code, default 999; any code != 0 is an error reply)
 //	inject id=<n> kind=ok|nil|err|bad w=<n>     a raw ServiceResponse for an arbitrary id reaches the requester
 //	adv dt=<ms> [order=<tag,...>]         virtual time passes (the 1 s expiry scan runs inside);
 //	                                      `order` is appended by the harness AFTER execution: the order
@@ -361,7 +362,20 @@ func newWorld() *world {
 	return w
 }
 
-func mkResponse(id int32, kind string, wv int) *messages.ServiceResponse {
+// errCode reads the optional code=<int32> of an error reply (default CodeErrString).
+func errCode(ws []string) int32 {
+	v, ok := hx.KV(ws, "code")
+	if !ok {
+		return as.CodeErrString
+	}
+	n, err := strconv.ParseInt(v, 10, 32)
+	if err != nil {
+		return as.CodeErrString
+	}
+	return int32(n)
+}
+
+func mkResponse(id int32, kind string, wv int, code int32) *messages.ServiceResponse {
 	r := &messages.ServiceResponse{ReqId: id}
 	switch kind {
 	case "ok":
@@ -369,7 +383,7 @@ func mkResponse(id int32, kind string, wv int) *messages.ServiceResponse {
 		r.Type, r.Body = "servicemsgs.TestHello", b
 	case "nil":
 	case "err":
-		r.ErrCode, r.ErrInfo = as.CodeErrString, fmt.Sprintf("E%d", wv)
+		r.ErrCode, r.ErrInfo = code, fmt.Sprintf("E%d", wv)
 	case "bad":
 		r.Type, r.Body = "servicemsgs.TestHello", []byte{0xff}
 	}
@@ -444,10 +458,11 @@ func (w *world) exec(op string) (string, string) {
 		case "nil":
 			w.peer.Post(func() { w.peer.Response(req, 0, "", nil) })
 		case "err":
-			w.peer.Post(func() { w.peer.Response(req, as.CodeErrString, fmt.Sprintf("E%d", wv), nil) })
+			code := errCode(ws)
+			w.peer.Post(func() { w.peer.Response(req, code, fmt.Sprintf("E%d", wv), nil) })
 		case "bad":
 			if req.ReqId != as.NotifyReqID {
-				w.sys.Root.Send(c.pid, mkResponse(req.ReqId, "bad", wv))
+				w.sys.Root.Send(c.pid, mkResponse(req.ReqId, "bad", wv, 0))
 			}
 		default:
 			return op, "bad-op"
@@ -463,7 +478,7 @@ func (w *world) exec(op string) (string, string) {
 		if !validKind(kind) {
 			return op, "bad-op"
 		}
-		w.sys.Root.Send(c.pid, mkResponse(int32(id), kind, hx.KVInt(ws, "w")))
+		w.sys.Root.Send(c.pid, mkResponse(int32(id), kind, hx.KVInt(ws, "w"), errCode(ws)))
 		synctest.Wait()
 		return op, c.observe("ok")
 	case "adv":
@@ -564,6 +579,10 @@ func (g *gen) act(depth int) string {
 	}
 }
 
+var errCodes = []int64{-1, -999, -2147483648, 1, 999, 1000, 2147483647}
+
+// payloadKind draws the kind of a reply; error replies carry an int32 code from the whole range
+// (reserved 1..999, user >= 1000, and negative ones: anything but 0 is an error), rarely the degenerate 0.
 func (g *gen) payloadKind() string {
 	switch x := g.h.R.Intn(10); {
 	case x < 5:
@@ -571,7 +590,18 @@ func (g *gen) payloadKind() string {
 	case x < 6:
 		return "nil"
 	case x < 8:
-		return "err"
+		if g.h.R.Intn(4) == 0 {
+			return "err" // default code
+		}
+		if g.h.R.Intn(25) == 0 {
+			g.h.Count("reply.err.code0")
+			return "err code=0"
+		}
+		c := errCodes[g.h.R.Intn(len(errCodes))]
+		if c < 0 {
+			g.h.Count("reply.err.negative-code")
+		}
+		return fmt.Sprintf("err code=%d", c)
 	default:
 		return "bad"
 	}
@@ -609,7 +639,26 @@ func (g *gen) genCase(run func(string)) {
 		target = 1 + r.Intn(4)
 	}
 	steps := 10 + r.Intn(70)
-	if r.Intn(3) == 0 {
+	if r.Intn(6) == 0 {
+		// several requests due in the same scan, some of whose callbacks panic: the others must still be
+		// completed (by the following scans)
+		h.Count("case.panicburst")
+		n := 2 + r.Intn(10)
+		for j := 0; j < n; j++ {
+			switch r.Intn(4) {
+			case 0:
+				run("req s=" + []string{"R(P)", "R(RP)", "R(F(P)R)", "R(NPR)", "R(PR)"}[r.Intn(5)])
+			case 1:
+				run("req s=r")
+			default:
+				run("req s=" + g.act(0))
+			}
+		}
+		run("adv dt=" + strconv.Itoa(30001+r.Intn(1200)))
+		for j := 0; j < 1+r.Intn(4); j++ {
+			run("adv dt=" + strconv.Itoa(400+r.Intn(900)))
+		}
+	} else if r.Intn(3) == 0 {
 		// burst: many requests outstanding at once, issued over a few ms
 		h.Count("case.burst")
 		for j := 0; j < target; j++ {
